@@ -13,14 +13,15 @@
                      write, dropped / duplicated header, wrong status, ";" kept in a
                      cookie) is rejected by Judge (the oracle has teeth).          *)
 EXTENDS HttpRespWire, TLC, Integers
-CONSTANTS Budget, MaxField
+CONSTANTS Budget, MaxField, NegControl, Rich
 ASSUME Budget \in Nat /\ MaxField \in Nat
 
-ReasonSyms == {120, 32, 13, 10, 0, 233}
-NameSyms == {97, 45, 32, 58, 233, 13}
-ValSyms == {120, 32, 13, 10, 0, 233, 58, 9}
-CookSyms == {120, 59, 61, 13, 32}
-BodySyms == {120, 13, 10, 48}
+\* representative octets of the classes that matter in each position (Rich = all of them)
+ReasonSyms == IF Rich THEN {120, 32, 13, 10, 0, 233} ELSE {120, 13, 10, 0}
+NameSyms == IF Rich THEN {97, 45, 32, 58, 233, 13} ELSE {97, 32, 58}
+ValSyms == IF Rich THEN {120, 32, 13, 10, 0, 233, 58, 9} ELSE {120, 32, 13, 10, 0}
+CookSyms == IF Rich THEN {120, 59, 61, 13, 32} ELSE {120, 59, 13}
+BodySyms == IF Rich THEN {120, 13, 10, 48} ELSE {13, 48}
 Seqs(S, n) == UNION {[1..k -> S] : k \in 0..n}
 
 (* Budget: every non-default choice costs 1, every symbol costs 1 (small-scope bound on the whole call sequence). *)
@@ -117,6 +118,7 @@ BuggyWires ==
     \cup (IF Len(cookies) > 0
           THEN {[tag |-> "cookie-dropped", cl |-> DefCl, w |-> Framed(LAMBDA x : StatusBytes(ModelReason) \o HdrBytesOf(hdrs, FALSE) \o x, Body)]}
           ELSE {})
+    \cup (IF NegControl THEN {[tag |-> "neg-control", cl |-> m.cl, w |-> m.w] : m \in ModelWires} ELSE {})
     \cup {[tag |-> "extra-header", cl |-> DefCl,
            w |-> Framed(LAMBDA x : StatusBytes(ModelReason) \o HdrBytesOf(hdrs, FALSE) \o x \o HdrLine(<<122, 122, 122>>, <<49>>) \o CookieLines(FALSE), Body)]}
 
@@ -125,6 +127,10 @@ OracleRejects == (phase = "open" /\ AppConsistent) =>
                     \A m \in BuggyWires : ~Judge(m.w, m.cl) \/ (PrintT(<<"NOT-REJECTED", m.tag, m.w>>) /\ FALSE)
 
 -----------------------------------------------------------------------------
+(* Vacuity guard without -coverage (its instrumentation makes the recursive parser two orders of
+   magnitude slower): every action reports itself once per worker through a TLC register. *)
+ASSUME \A k \in 101..109 : TLCSet(k, 0)
+Seen(k, name) == TLCGet(k) = 1 \/ (TLCSet(k, 1) /\ PrintT(<<"ACTION", name>>))
 Init == \E mi \in {0, 1}, h \in BOOLEAN : InitWith([minor |-> mi, head |-> h])
 
 Stage0 == hdrs = <<>> /\ cookies = <<>> /\ writes = <<>> /\ ~reasonSet /\ code = 200
@@ -132,18 +138,22 @@ Stage1 == cookies = <<>> /\ writes = <<>>
 Stage2 == writes = <<>>
 
 DoSetCodeOk == Stage0 /\ Left >= 1 /\ \E c \in {200, 204, 304, 404}, rs \in BOOLEAN :
-                   \E r \in (IF rs THEN Seqs(ReasonSyms, IF c = 200 THEN Lim ELSE Lim - 1) ELSE {<<>>}) : (c # 200 \/ rs) /\ SetCodeOk(c, rs, r)
-DoSetCodeRefused == Stage0 /\ Left >= 1 /\ \E r \in Seqs(ReasonSyms, Lim) : SetCodeRefused(200, TRUE, r)
-DoSetHeaderOk == Stage1 /\ Left >= 2 /\ Len(hdrs) < 2 /\ \E n \in Seqs(NameSyms, Lim) : \E v \in Seqs(ValSyms, Lim - Len(n)) : SetHeaderOk(n, v, FALSE)
-DoSetHeaderRefused == Stage1 /\ Left >= 1 /\ Len(hdrs) < 2 /\ \E n \in Seqs(NameSyms, Lim) : \E v \in Seqs(ValSyms, Lim - Len(n)) : SetHeaderRefused(n, v, FALSE)
-DoSetContentLength == Stage1 /\ Left >= 1 /\ ~HasUserCL /\ \E d \in {48, 49, 50} : SetHeaderOk(NContentLength, <<d>>, FALSE)
+                   \E r \in (IF rs THEN Seqs(ReasonSyms, IF c = 200 THEN Lim ELSE Lim - 1) ELSE {<<>>}) :
+                       (c # 200 \/ rs) /\ SetCodeOk(c, rs, r) /\ Seen(101, "DoSetCodeOk")
+DoSetCodeRefused == Stage0 /\ Left >= 1 /\ \E r \in Seqs(ReasonSyms, Lim) : SetCodeRefused(200, TRUE, r) /\ Seen(102, "DoSetCodeRefused")
+DoSetHeaderOk == Stage1 /\ Left >= 2 /\ Len(hdrs) < 2 /\ \E n \in Seqs(NameSyms, Lim) : \E v \in Seqs(ValSyms, Lim - Len(n)) :
+                     SetHeaderOk(n, v, FALSE) /\ Seen(103, "DoSetHeaderOk")
+DoSetHeaderRefused == Stage1 /\ Left >= 1 /\ Len(hdrs) < 2 /\ \E n \in Seqs(NameSyms, Lim) : \E v \in Seqs(ValSyms, Lim - Len(n)) :
+                          SetHeaderRefused(n, v, FALSE) /\ Seen(104, "DoSetHeaderRefused")
+DoSetContentLength == Stage1 /\ Left >= 1 /\ ~HasUserCL /\ \E d \in {48, 49, 50} : SetHeaderOk(NContentLength, <<d>>, FALSE) /\ Seen(105, "DoSetContentLength")
 DoAddCookieOk == Stage2 /\ Left >= 1 /\ Len(cookies) < 1 /\ \E k \in Seqs(CookSyms, Lim) : \E v \in Seqs(CookSyms, Lim - Len(k)) :
                      \E at \in {<<>>} \cup {<< <<APath, p>> >> : p \in Seqs(CookSyms, Lim - Len(k) - Len(v) - 1)}, fl \in {<<>>, <<FSecure>>} :
-                         (Len(fl) = 0 \/ Lim - Len(k) - Len(v) - (IF at = <<>> THEN 0 ELSE 1 + Len(at[1][2])) >= 1) /\ AddCookieOk(k, v, at, fl, FALSE)
+                         /\ (Len(fl) = 0 \/ Lim - Len(k) - Len(v) - (IF at = <<>> THEN 0 ELSE 1 + Len(at[1][2])) >= 1)
+                         /\ AddCookieOk(k, v, at, fl, FALSE) /\ Seen(106, "DoAddCookieOk")
 DoAddCookieRefused == Stage2 /\ Left >= 1 /\ Len(cookies) < 1 /\ \E k \in Seqs(CookSyms, Lim) : \E v \in Seqs(CookSyms, Lim - Len(k)) :
-                          AddCookieRefused(k, v, <<>>, <<>>, FALSE)
-DoWrite == Left >= 1 /\ Len(writes) < 3 /\ \E d \in Seqs(BodySyms, Lim) : Write(d)
-DoFinish == \E m \in ModelWires : Finish(m.w, m.cl)
+                          AddCookieRefused(k, v, <<>>, <<>>, FALSE) /\ Seen(107, "DoAddCookieRefused")
+DoWrite == Left >= 1 /\ Len(writes) < 3 /\ \E d \in Seqs(BodySyms, Lim) : Write(d) /\ Seen(108, "DoWrite")
+DoFinish == \E m \in ModelWires : Finish(m.w, m.cl) /\ Seen(109, "DoFinish")
 
 Next == DoSetCodeOk \/ DoSetCodeRefused \/ DoSetHeaderOk \/ DoSetHeaderRefused \/ DoSetContentLength
         \/ DoAddCookieOk \/ DoAddCookieRefused \/ DoWrite \/ DoFinish
